@@ -100,4 +100,12 @@ CHECKS = {
             dict(name="regress", run="^(TestRegress.*|TestRealNATS)$", shards=(1, 1)),
         ],
     ),
+    "C11": dict(
+        pkg="./c11", level="exploration",
+        runs=[
+            dict(name="seq", run="^TestPropSequential$", checks=(1200, 12000), shards=(4, 16), shrinktime="20s"),
+            dict(name="conc", run="^TestPropConcurrent$", checks=(300, 3000), shards=(4, 16), shrinktime="20s"),
+            dict(name="regress", run="^TestRegress", shards=(1, 1)),
+        ],
+    ),
 }
